@@ -94,12 +94,15 @@ func (b *Bed) CollectionNum(name string) int32 {
 
 // Ledger records, at the client boundary, every operation a correct client offered.
 type Ledger struct {
-	mu      sync.Mutex
+	// SkipKeys: datatype keys whose stored operations need not have been offered by a
+	// client (e.g. documents that also receive REST patches).
+	SkipKeys map[string]bool
+	mu       sync.Mutex
 	offered map[string]bool // duid-independent: cuid|seq|lamport|type|bodyhash
 }
 
 // NewLedger creates an empty ledger.
-func NewLedger() *Ledger { return &Ledger{offered: map[string]bool{}} }
+func NewLedger() *Ledger { return &Ledger{offered: map[string]bool{}, SkipKeys: map[string]bool{}} }
 
 func opKey(cuid string, seq, lamport uint64, typ string, body []byte) string {
 	return fmt.Sprintf("%s|%d|%d|%s|%s", cuid, seq, lamport, typ, core.Hash(string(body)))
@@ -147,11 +150,18 @@ func (b *Bed) CheckLog(l *Ledger, only string) (sig, msg string) {
 				return "log:foreign-collection", fmt.Sprintf("operation %s stored under collection %d, its datatype belongs to %d", o.ID, o.CollectionNum, dt.CollectionNum)
 			}
 			prev := perClient[o.OpID.CUID]
+			_, isSubscriber := dt.RWClients[o.OpID.CUID]
+			if !isSubscriber {
+				// operations appended by the server's REST patch path (administrative, volatile
+				// client): no per-client sequence contract
+				perClient[o.OpID.CUID] = o.OpID.Seq
+				continue
+			}
 			if o.OpID.Seq != prev+1 {
 				return "log:client-order", fmt.Sprintf("datatype %s(%s): client %s's operations are stored with seq ...%d then %d at sseq %d (not its issue order / not exactly once)", dt.Key, dt.DUID, o.OpID.CUID, prev, o.OpID.Seq, o.Sseq)
 			}
 			perClient[o.OpID.CUID] = o.OpID.Seq
-			if l != nil && !l.offered[opKey(o.OpID.CUID, o.OpID.Seq, o.OpID.Lamport, o.OpType, o.Body)] {
+			if l != nil && !l.SkipKeys[dt.Key] && !l.offered[opKey(o.OpID.CUID, o.OpID.Seq, o.OpID.Lamport, o.OpType, o.Body)] {
 				return "log:unoffered-op", fmt.Sprintf("datatype %s(%s): stored operation sseq %d (%s seq %d) was never offered by a client", dt.Key, dt.DUID, o.Sseq, o.OpID.CUID, o.OpID.Seq)
 			}
 		}
